@@ -596,11 +596,14 @@ pid_t usim_fork(void)
 				t->sb_n = 0;
 				t->has_deadline = 0;
 				t->frozen = 0;
+				t->freeze_until = 0;
 				t->joined = 1;	/* joining it is an error */
 			}
 		}
 		prctl(PR_SET_PDEATHSIG, SIGKILL);
 		G.in_fork_child = 1;
+		G.ntimed_frozen = 0;
+		me->stall_ord = 0;
 		G.solo_tid = -1;
 		G.stall_victim = -2;
 		for (i = 0; i < US_NSTREAMS + 2; i++)
